@@ -160,6 +160,11 @@ func (n UnixFSHAMTShard) loadChild(pbLink dagpb.PBLink) (UnixFSHAMTShard, error)
 	if err != nil {
 		return nil, err
 	}
+	if und.data.FieldFanout().Must().Int() != n.data.FieldFanout().Must().Int() {
+		// every shard of one HAMT shares the fanout; link-name prefixes and the
+		// hash bits consumed per level are derived from it
+		return nil, ErrFanoutMismatch
+	}
 	n.shardCache[pbLink.FieldHash().Link()] = und
 	return und, nil
 }
